@@ -74,7 +74,7 @@ func NewRolloutScn(c *vs.Case, o RolloutOpts) *Scn {
 	if o.Small {
 		s.Prog.StatusMode = 1
 	} else {
-		s.Prog.StatusMode = []int{1, 2, 3, 0}[c.Int(4)]
+		s.Prog.StatusMode = []int{1, 2, 3, 0, 5}[c.Int(5)]
 		if c.Prob(1, 4) {
 			// a second, non-rolling kind next to the rolling one
 			s.Cfg.Children = append(s.Cfg.Children, ChildCfg{Resource: "configmaps", Method: c.PickStr("InPlace", "OnDelete", "Recreate")})
@@ -524,6 +524,17 @@ func JudgeRolloutSync(c *vs.Case, e *Env, t *SyncTrace, m *RolloutModel, observe
 		}
 		if cond["reason"] != m.Reason || cond["status"] != m.Status {
 			return vs.Violf("C07/updated-condition-wrong", "parent Updated condition is %v/%v (%v), model says %s/%s %s", cond["status"], cond["reason"], cond["message"], m.Status, m.Reason, m.WaitWhy)
+		}
+		nUpdated := 0
+		if l, ok := getPath(live, "status.conditions"); ok {
+			for _, x := range l.([]any) {
+				if xm, ok := x.(map[string]any); ok && xm["type"] == "Updated" {
+					nUpdated++
+				}
+			}
+		}
+		if nUpdated > 1 {
+			return vs.Violf("C07/updated-condition-wrong", "parent status carries %d conditions of type Updated", nUpdated)
 		}
 	}
 	_ = parentBefore
